@@ -195,30 +195,51 @@ func c14R7(c *Ctx) {
 	rootedSignerKey := pairIs(rootedOf(FieldIs(signerName)), hdrName(keyHdr))
 
 	// ---- (2) the predicates -----------------------------------------------------
+	// The comparisons are looked for in signatureBinding and in the unexported helpers its
+	// body was split into (scopeFuncs); inside a helper the operands are read with the
+	// helper's parameters replaced by each call's arguments, so a helper that is handed the
+	// two names as plain strings is recognised as well.
 	preds := map[*ssa.Function]string{}
-	for _, g := range WithAnons(fn) {
+	pairSeen := map[string]bool{}
+	for _, g := range scopeFuncs(fn) {
+		acts := [][]*Expr{nil}
+		if top := TopLevel(g); top != fn {
+			acts = append(acts, helperActivations(fn, top)...)
+		}
 		for _, b := range g.Blocks {
 			for _, in := range b.Instrs {
 				cl, ok := in.(*ssa.Call)
 				if !ok {
 					continue
 				}
-				e := Desc(cl)
 				what := ""
-				switch {
-				case signerKey(e):
-					what = "signer ↔ key owner"
-				case ownerOwner(e):
-					what = "RRset owner ↔ RRSIG owner"
-				default:
+				for _, args := range acts {
+					e := inActivation(Desc(cl), args)
+					switch {
+					case signerKey(e):
+						what = "signer ↔ key owner"
+					case ownerOwner(e):
+						what = "RRset owner ↔ RRSIG owner"
+					}
+					if what != "" {
+						break
+					}
+				}
+				if what == "" {
 					continue
 				}
+				pairSeen[what] = true
 				if sf := cl.Call.StaticCallee(); sf != nil && inModule[sf] {
 					preds[sf] = what
 				} else if fo, _, _ := calleeObj(&cl.Call); fo != nil && !banned(fo) {
 					c.undecided(R, fmt.Sprintf("%s|%s|name predicate %s", R, short, fo.FullName()), instrPos(in), "the "+what+" comparison is made by a function outside the module whose folding cannot be read here")
 				}
 			}
+		}
+	}
+	for _, what := range []string{"signer ↔ key owner", "RRset owner ↔ RRSIG owner"} {
+		if !pairSeen[what] {
+			c.unresolved(R, short+"|name predicate "+what, "no two-name predicate applied to this pair was found in signatureBinding or its helpers (the folding of the comparison cannot be judged)")
 		}
 	}
 	var pfs []*ssa.Function
